@@ -148,7 +148,8 @@ def C17_delivery_exact_full : Prop :=
                   then [true] else [])
 
 /-- **delivery_exact.** Holds in every state in which the three bookkeeping views agree
-(`NodeSt.Agree`, see `views_agree_*` below for which steps are proved to keep it). -/
+(`NodeSt.Agree`); `views_agree` below shows that every reachable state is such a state, and
+`delivery_exact_reachable` combines the two. -/
 theorem delivery_exact : C17_delivery_exact_full := by
   intro s h peer ident space topic msgIdent relayed idLenOk big
   obtain ⟨hd, hf⟩ := handlePublish_obs s peer ident space topic msgIdent relayed idLenOk big
@@ -233,31 +234,34 @@ theorem views_agree_unsubscribe (sid : Nat) (space : String) (topics : List Stri
     KeepsInv (.unsubscribe sid space topics) :=
   fun _ h => Agree_handleUnsubscribe h sid space topics
 
-/-- **views_agree_partial.** The full statement follows by induction over the history from the
-per-step obligations. NAMED GAP: `KeepsInv` for subscribe is a hypothesis here; all other
-operations are proved above. -/
-theorem views_agree_partial
-    (hsub : ∀ sid peer ident space topics, KeepsInv (.subscribe sid peer ident space topics)) :
-    C17_views_agree_full := by
+/-- `handleSubscribe` keeps the invariant: every rejection branch, the accept loop with both caps,
+tag registration, the rollback when the stream has vanished, and the (repaired) zero-accept case -/
+theorem views_agree_subscribe (sid : Nat) (peer ident space : String) (topics : List String) :
+    KeepsInv (.subscribe sid peer ident space topics) :=
+  fun _ h => Agree_handleSubscribe h sid peer ident space topics
+
+/-- every operation keeps the invariant -/
+theorem views_agree_step (op : NodeOp) : KeepsInv op := by
+  cases op with
+  | openStream sid peer ident => exact views_agree_open sid peer ident
+  | subscribe sid peer ident space topics => exact views_agree_subscribe sid peer ident space topics
+  | unsubscribe sid space topics => exact views_agree_unsubscribe sid space topics
+  | publish peer ident space topic msgIdent relayed idLenOk big =>
+    exact views_agree_publish peer ident space topic msgIdent relayed idLenOk big
+  | closeStream sid => exact views_agree_closeStream sid
+  | evict space acct => exact views_agree_evict space acct
+  | revalidate space => exact views_agree_revalidate space
+  | closeSpace space => exact views_agree_closeSpace space
+  | setMember space acct v => exact views_agree_setMember space acct v
+
+/-- **views_agree.** The full statement, for every history, by induction over the operation list. -/
+theorem views_agree : C17_views_agree_full := by
   intro a b c ops
-  have hstep : ∀ op, KeepsInv op := by
-    intro op
-    cases op with
-    | openStream sid peer ident => exact views_agree_open sid peer ident
-    | subscribe sid peer ident space topics => exact hsub sid peer ident space topics
-    | unsubscribe sid space topics => exact views_agree_unsubscribe sid space topics
-    | publish peer ident space topic msgIdent relayed idLenOk big =>
-      exact views_agree_publish peer ident space topic msgIdent relayed idLenOk big
-    | closeStream sid => exact views_agree_closeStream sid
-    | evict space acct => exact views_agree_evict space acct
-    | revalidate space => exact views_agree_revalidate space
-    | closeSpace space => exact views_agree_closeSpace space
-    | setMember space acct v => exact views_agree_setMember space acct v
   have : ∀ (ops : List NodeOp) (s : NodeSt), s.Agree → (s.run ops).Agree := by
     intro ops
     induction ops with
     | nil => intro s h; exact h
-    | cons op rest ih => intro s h; exact ih _ (hstep op s h)
+    | cons op rest ih => intro s h; exact ih _ (views_agree_step op s h)
   exact this ops _ (views_agree_init a b c)
 
 /-- **teardown_empties, full strength**: in every reachable state in which no interest is registered
@@ -268,18 +272,41 @@ def C17_teardown_full : Prop :=
     let s := ({ capSpace := a, capStream := b, burst := c } : NodeSt).run ops
     (∀ sid sp p, ¬ s.Reg sid sp p) → s.Clean
 
-/-- **teardown_empties_partial.** In any state satisfying the invariant, "nothing registered"
-implies "all bookkeeping empty"; in particular once every stream is closed. -/
-theorem teardown_empties_partial (s : NodeSt) (h : s.Agree) :
+/-- in any state satisfying the invariant, "nothing registered" implies "all bookkeeping empty";
+in particular once every stream is closed -/
+theorem teardown_of_invariant (s : NodeSt) (h : s.Agree) :
     ((∀ sid sp p, ¬ s.Reg sid sp p) → s.Clean) ∧ (s.pool = [] → s.Clean) := by
   refine ⟨clean_of_no_reg h, fun hp => clean_of_no_reg h ?_⟩
   intro sid sp p hreg
   obtain ⟨st, hst, _⟩ := h.inPool sid sp p hreg
   simp [hp] at hst
 
-theorem teardown_of_views (hv : C17_views_agree_full) : C17_teardown_full := by
+/-- **teardown_empties.** For every history: once nothing is registered any more, the space tries,
+the per-stream records and the stream tags are all empty. -/
+theorem teardown_empties : C17_teardown_full := by
   intro a b c ops
-  exact (teardown_empties_partial _ (hv a b c ops)).1
+  exact (teardown_of_invariant _ (views_agree a b c ops)).1
+
+/-- … in particular after every stream has closed, whatever happened before -/
+theorem teardown_all_closed (a b c : Nat) (ops : List NodeOp)
+    (hp : (({ capSpace := a, capStream := b, burst := c } : NodeSt).run ops).pool = []) :
+    (({ capSpace := a, capStream := b, burst := c } : NodeSt).run ops).Clean :=
+  (teardown_of_invariant _ (views_agree a b c ops)).2 hp
+
+/-- **delivery_exact over histories.** In every state reached from an empty service by any operation
+sequence, a publish frame is delivered exactly as the property says (no hypothesis left: the
+invariant is `views_agree`). -/
+theorem delivery_exact_reachable (a b c : Nat) (ops : List NodeOp)
+    (peer ident space topic msgIdent : String) (relayed idLenOk big : Bool) :
+    let s := ({ capSpace := a, capStream := b, burst := c } : NodeSt).run ops
+    let o := (s.handlePublish peer ident space topic msgIdent relayed idLenOk big).2
+    o.delivered.Nodup ∧
+    (∀ sid, sid ∈ o.delivered ↔
+      (s.publishAccepted peer ident space topic msgIdent relayed idLenOk big = true ∧
+        ∃ p, s.Reg sid space p ∧ segMatches (splitTopic p) (splitTopic topic) = true)) ∧
+    o.forwards = (if s.publishAccepted peer ident space topic msgIdent relayed idLenOk big && !relayed
+                  then [true] else []) :=
+  delivery_exact _ (views_agree a b c ops) peer ident space topic msgIdent relayed idLenOk big
 
 /-- the three witness histories of F-pubsub-empty-sub end clean in the model of the repaired code
 (on the unrepaired code the first leaves `remote[s2]`, the second `streams[1]`, see the notes) -/
